@@ -910,6 +910,36 @@ func runC10(env *lib.Env, rep *lib.Report) {
 			r.check(c10Case{tree: sql.UseStatement{DBName: name}, toks: g.toks, fam: "use"})
 		}
 	}
+	// (9) identifier shapes: underscores first / last / only, digits inside and last, a long one - as table, column
+	// and database name
+	for _, name := range []string{"_id", "_", "__x9", "a_", "a1_b2", "x9", "r2d2_", "_" + strings.Repeat("n", 70)} {
+		g := &gen{}
+		g.kw("DELETE")
+		g.kw("FROM")
+		g.id(name)
+		g.kw("WHERE")
+		del := sql.DeleteStatementSearched{TableName: name}
+		del.WhereClause = sql.WhereClause{SearchCondition: g.cond([]atom{{cr("", name), int64(1), ops[0]}, {cr(name, name), int64(2), ops[2]}}, []bool{true})}
+		r.check(c10Case{tree: del, toks: g.toks, fam: "identifier-shapes"})
+		g = &gen{}
+		g.kw("CREATE")
+		g.kw("TABLE")
+		g.id(name)
+		g.p("(")
+		g.id(name)
+		g.toks = append(g.toks, ctypes[0].words...)
+		g.p(")")
+		r.check(c10Case{tree: sql.CreateTable{Name: name, Elements: []sql.TableElement{{ColumnDefinition: sql.ColumnDefinition{DataType: ctypes[0].dt, Name: name}}}}, toks: g.toks, fam: "identifier-shapes"})
+		g = &gen{}
+		g.kw("CREATE")
+		g.kw("DATABASE")
+		g.id(name)
+		r.check(c10Case{tree: sql.CreateDatabase{Name: name}, toks: g.toks, fam: "identifier-shapes"})
+		g = &gen{}
+		g.kw("USE")
+		g.id(name)
+		r.check(c10Case{tree: sql.UseStatement{DBName: name}, toks: g.toks, fam: "identifier-shapes"})
+	}
 	g := &gen{}
 	g.kw("SHOW")
 	g.kw("DATABASE")
